@@ -288,7 +288,7 @@ func runC13(c *fw.Ctx) {
 			c13check(c, []string{"a"}, nil, n)
 			n64 += 3
 		}
-		for _, n := range []int{math.MaxInt, math.MaxInt - 1, 1 << 40, 1 << 31, 1000} {
+		for _, n := range []int{math.MaxInt, math.MaxInt - 1, clipInt(1 << 40), clipInt(1 << 31), 1000} {
 			for li := 0; li < 40; li++ {
 				left := linesOf(seqOfN(li*7+c.Block, 3))
 				right := linesOf(seqOfN(li*13+3*c.Block+1, 3))
